@@ -216,6 +216,63 @@ func c15Scenario(nameLens []int, msize uint32, dotu bool) Scenario {
 		if len(x.Panics) > 0 {
 			fail("panic/"+x.Panics[0].Frame, "panic: "+x.Panics[0].Value)
 		}
+		// rereading from offset 0 lists the directory as it is now, also when the file
+		// system's timestamps are too coarse to show that it changed (the directory's
+		// mtime is put back after each change)
+		if len(want) <= 12 {
+			body2 := func() {
+				h := newUfsH(root, msize, dotu)
+				cl := h.Connect()
+				ver := "9P2000"
+				if dotu {
+					ver = "9P2000.u"
+				}
+				cl.Version(msize, ver)
+				un := ""
+				if !dotu {
+					un = go9p.OsUsers.Uid2User(os.Geteuid()).Name()
+				}
+				cl.Rpc(tattach(1, 0, wire.NOFID, un, uint32(os.Geteuid()), dotu))
+				cl.Rpc(twalk(2, 0, 1, "dir"))
+				if r := cl.Rpc(&wire.Msg{Type: wire.Topen, Tag: 3, Fid: 1, Mode: 0}); r == nil || r.Type != wire.Ropen {
+					fail("open-dir", fmt.Sprintf("Topen of the directory: %v", r))
+					return
+				}
+				dirp := filepath.Join(root, "dir")
+				fi, err := os.Stat(dirp)
+				if err != nil {
+					return
+				}
+				mt := fi.ModTime()
+				L := msize - 24
+				c15List(cl, dotu, 1, L, 20)
+				steps := []struct {
+					what string
+					do   func()
+					want []string
+				}{
+					{"a file was created", func() { os.WriteFile(filepath.Join(dirp, "zz-added"), []byte("x"), 0o644) }, append(append([]string{}, want...), "zz-added")},
+					{"that file was removed again", func() { os.Remove(filepath.Join(dirp, "zz-added")) }, want},
+				}
+				for _, st := range steps {
+					st.do()
+					os.Chtimes(dirp, mt, mt)
+					res.Evals++
+					names, _, bad := c15List(cl, dotu, 1, L, 21)
+					g := append([]string{}, names...)
+					sort.Strings(g)
+					w := append([]string{}, st.want...)
+					sort.Strings(w)
+					if bad != "" || strings.Join(g, "\x00") != strings.Join(w, "\x00") {
+						fail("reread-from-zero-after-change", fmt.Sprintf("%s (directory mtime unchanged): rereading from offset 0 on the open fid gave %d entries, the directory has %d (%s)", st.what, len(g), len(w), bad))
+					}
+				}
+			}
+			x2 := vs.Run(nil, body2, vs.Options{Horizon: 500000000})
+			if len(x2.Panics) > 0 {
+				fail("panic/"+x2.Panics[0].Frame, "panic: "+x2.Panics[0].Value)
+			}
+		}
 		// the client's Readdir(0)
 		bad := withUfsClient(root, msize, dotu, func(c *go9p.Clnt, h *SrvH) string {
 			f, err := c.FOpen("dir", go9p.OREAD)
@@ -302,7 +359,7 @@ func c15Scenarios(tier string) []Scenario {
 func init() {
 	register(&Property{ID: "C15", Level: "exploration",
 		Technique: "bounded-exhaustive enumeration of directory shapes and read counts against the real Ufs, replies decoded record by record with the independent codec and compared with os.ReadDir",
-		Rule:      "directories with 0..3 (thorough 5) entries whose name lengths are every multiset over {1,2,17,255}, plus 50-, 400- (thorough 3000-) entry directories; msize {512,4120} (thorough + 360, 65560), both dialects; for each: every count from the largest entry size to the listing size + 1 read by the offset rule to the zero-length reply, short counts at every record boundary, restart at offset 0 after every prefix, File.Readdir(0). non-trivial = complete listings / reads compared",
+		Rule:      "directories with 0..3 (thorough 5) entries whose name lengths are every multiset over {1,2,17,255}, plus 50-, 400- (thorough 3000-) entry directories; msize {512,4120} (thorough + 360, 65560), both dialects; for each: every count from the largest entry size to the listing size + 1 read by the offset rule to the zero-length reply, short counts at every record boundary, restart at offset 0 after every prefix, and after an entry was created / removed with the directory's mtime put back (coarse timestamps), File.Readdir(0). non-trivial = complete listings / reads compared",
 		Assumptions: []string{"the host file system and package os are the reference; a directory is skipped at an msize that cannot carry its largest entry"},
 		Scenarios:   c15Scenarios, QuickS: 100, ThoroughS: 900})
 }
